@@ -77,7 +77,13 @@ def main():
     try:
         shutil.copytree(os.path.join(dest, "demo"), os.path.join(wt, "SEED_DEMO"))
         extra = os.environ.get("SEED_DEMO_FLAGS", "").split()
-        rc0, out0 = sh(["go", "test"] + extra + ["-tags", tag, "-count=1", "./SEED_DEMO/"], cwd=wt)
+        # demonstrations that need a build configuration: SEED_DEMO_TAGS_EXTRA="debug", SEED_DEMO_GOARCH=386, SEED_DEMO_FLAGS="-race"
+        dtag = (tag + " " + os.environ.get("SEED_DEMO_TAGS_EXTRA", "")).strip()
+        denv = dict(ENV)
+        if os.environ.get("SEED_DEMO_GOARCH"):
+            denv["GOARCH"] = os.environ["SEED_DEMO_GOARCH"]
+        meta["demo_cmd"] = "%sgo test %s -tags '%s' -count=1 ./SEED_DEMO/   (demo/ copied to <worktree>/SEED_DEMO/)" % ("GOARCH=%s " % denv["GOARCH"] if "GOARCH" in denv else "", " ".join(extra), dtag)
+        rc0, out0 = sh(["go", "test"] + extra + ["-tags", dtag, "-count=1", "./SEED_DEMO/"], cwd=wt, env=denv)
         meta["demo_without_change"] = "pass" if rc0 == 0 else "FAIL"
         rc, out = sh(["git", "apply", os.path.join(dest, "patch.diff")], cwd=wt)
         if rc != 0:
@@ -93,7 +99,7 @@ def main():
         meta["builds"] = rcb == 0
         missing, failed = suite(wt)
         meta["suite_with_change"] = "as baseline" if not missing else "BASELINE TESTS FAILING: %s" % missing
-        rc1, out1 = sh(["go", "test"] + extra + ["-tags", tag, "-count=1", "./SEED_DEMO/"], cwd=wt)
+        rc1, out1 = sh(["go", "test"] + extra + ["-tags", dtag, "-count=1", "./SEED_DEMO/"], cwd=wt, env=denv)
         meta["demo_with_change"] = "fail" if rc1 != 0 else "PASSES (does not demonstrate)"
         meta["demo_output_tail"] = out1[-500:]
     finally:
